@@ -277,9 +277,12 @@ def run(ctx):
     rep = report.Report('C05', 'model_checking')
     bound = 1 if ctx.quick else 2
     params = param_list(ctx)
+    if not ctx.quick:
+        params = [dict(q, _free_switch=True) for q in params]
     st, viols, samples, gate = core.run_search(Events, params, bound, ctx.workers, ctx.seed)
     # threaded server only: every source line of Socket.close is a scheduling point
-    st_l, viols_l, samples_l, gate_l = core.run_search(Events, trace_list(ctx), bound, ctx.workers, ctx.seed)
+    st_l, viols_l, samples_l, gate_l = core.run_search(Events, [dict(q, _free_switch=True) for q in trace_list(ctx)],
+                                                       bound, ctx.workers, ctx.seed)
     st.merge(st_l)
     viols += viols_l
     samples = samples[:3] + samples_l[:1]
